@@ -42,7 +42,8 @@ def setup(ctx):
 
 
 def gen_world(rng):
-    parts = [{"cls": rng.choice(["Part", "BigPart"]), "name": rng.choice("ab"), "size": rng.randint(0, 2)} for _ in range(rng.randint(2, 5))]
+    parts = [{"cls": rng.choice(["Part", "BigPart"]), "name": rng.choice("ab"), "size": rng.randint(0, 2), "grade": rng.randint(0, 1)}
+             for _ in range(rng.randint(2, 5))]
     boxes = []
     shared = [rng.randrange(len(parts)) for _ in range(2)]
     for i in range(rng.randint(1, 5)):
@@ -50,13 +51,14 @@ def gen_world(rng):
         pl = shared if share else [rng.randrange(len(parts)) for _ in range(rng.randint(0, 3))]
         boxes.append({"cls": rng.choice(["Box", "FancyBox"]), "label": rng.choice(["B0", "B1", "B2"]), "lid": rng.randrange(len(parts)),
                       "parts": pl, "share": share and rng.random() < 0.5, "tags": [rng.choice("xyz") for _ in range(rng.randint(0, 2))],
-                      "weight": rng.randint(0, 1)})
+                      "weight": rng.randint(0, 1), "ribbon": rng.choice("rs"),
+                      "spare": rng.randrange(len(parts)) if rng.random() < 0.6 else None})
     shelves = [{"code": rng.choice(["S0", "S1"]), "main": rng.randrange(len(boxes)),
                 "boxes": [rng.randrange(len(boxes)) for _ in range(rng.randint(0, 3))]} for _ in range(rng.randint(0, 3))]
     return {"parts": parts, "boxes": boxes, "shelves": shelves}
 
 
-ELEM_TYPE = {"lid": "Part", "parts": "Part", "main": "Box", "boxes": "Box"}
+ELEM_TYPE = {"lid": "Part", "spare": "Part", "parts": "Part", "main": "Box", "boxes": "Box"}
 
 
 def gen_part_pattern(rng, allow_empty=False):
@@ -67,13 +69,17 @@ def gen_part_pattern(rng, allow_empty=False):
         attrs["size"] = ["lit", rng.randint(0, 2)]
     if allow_empty and rng.random() < 0.3:
         attrs = {}
-    return {"type": rng.choice(["Part", "Part", "BigPart"]), "attrs": attrs}
+    type_ = rng.choice(["Part", "Part", "BigPart"])
+    if type_ == "BigPart" and rng.random() < 0.4:
+        attrs["grade"] = ["lit", rng.randint(0, 1)]         # an attribute only the narrower type has
+    return {"type": type_, "attrs": attrs}
 
 
 def gen_box_pattern(rng, world, depth, allow_select):
     attrs = {}
     n = len(world["parts"])
-    choices = ["label", "lid", "parts", "weight", "lid", "parts"] + (["tags"] if rng.random() < 0.35 else [])
+    choices = ["label", "lid", "parts", "weight", "lid", "parts"] + (["tags"] if rng.random() < 0.35 else []) + \
+              (["spare"] if rng.random() < 0.3 else [])
     rng.shuffle(choices)
     choices = list(dict.fromkeys(choices))
     for a in choices[:rng.choice([1, 2, 2, 3, 3, 4])]:
@@ -85,7 +91,7 @@ def gen_box_pattern(rng, world, depth, allow_select):
             k = rng.random()
             pool = [rng.choice("xyz") for _ in range(rng.choice([0, 1, 2, 3]))]
             attrs[a] = ["lit", rng.choice("xyz")] if k < 0.5 else ["anylit", pool] if k < 0.75 else ["alllit", pool]
-        elif a == "lid":
+        elif a in ("lid", "spare"):
             k = rng.random()
             if k < 0.6:
                 attrs[a] = ["match", gen_part_pattern(rng)]
@@ -114,7 +120,10 @@ def gen_box_pattern(rng, world, depth, allow_select):
                 attrs[a] = ["select_any", cand]
             else:
                 attrs[a] = ["select_all", cand]
-    return {"type": rng.choice(["Box", "Box", "FancyBox"]), "attrs": attrs}
+    type_ = rng.choice(["Box", "Box", "FancyBox"])
+    if type_ == "FancyBox" and rng.random() < 0.4:
+        attrs["ribbon"] = ["lit", rng.choice("rs")]
+    return {"type": type_, "attrs": attrs}
 
 
 def gen(rng, tier, ctx):
@@ -147,12 +156,17 @@ def witnesses():
     return {
         "match-any-collapses-equal-collections": {"world": world, "pattern": {"type": "Box", "attrs": {"parts": ["any", [0]]}}, "root_selected": False},
         "literal-on-builtin-collection-is-equality": {"world": world, "pattern": {"type": "Box", "attrs": {"tags": ["lit", "x"]}}, "root_selected": False},
+        "nested-match-subclass-attribute": {"world": dict(world, parts=[{"cls": "BigPart", "name": "a", "size": 0, "grade": 1}, {"cls": "BigPart", "name": "b", "size": 1, "grade": 0}]),
+                                            "pattern": {"type": "Box", "attrs": {"lid": ["match", {"type": "BigPart", "attrs": {"grade": ["lit", 1]}}]}}, "root_selected": False},
+        "nested-match-on-none-valued-optional": {"world": dict(world, boxes=[dict(world["boxes"][0], spare=0), dict(world["boxes"][1], spare=None)]),
+                                                 "pattern": {"type": "Box", "attrs": {"spare": ["match", {"type": "Part", "attrs": {"name": ["lit", "a"]}}]}}, "root_selected": False},
         "selected-part-of-another-element": {"world": world, "pattern": {"type": "Box", "attrs": {"lid": ["select", {"type": "Part", "attrs": {}}]}}, "root_selected": True},
     }
 
 
 def make_world(w, mm):
-    parts = [getattr(mm, p["cls"])(name=p["name"], size=p["size"]) for p in w["parts"]]
+    parts = [getattr(mm, p["cls"])(name=p["name"], size=p["size"], **({"grade": p.get("grade", 0)} if p["cls"] == "BigPart" else {}))
+             for p in w["parts"]]
     boxes = []
     shared_list = None
     for b in w["boxes"]:
@@ -161,7 +175,9 @@ def make_world(w, mm):
             if shared_list is None:
                 shared_list = pl
             pl = shared_list
-        boxes.append(getattr(mm, b["cls"])(label=b["label"], lid=parts[b["lid"]], parts=pl, tags=list(b["tags"]), weight=b["weight"]))
+        boxes.append(getattr(mm, b["cls"])(label=b["label"], lid=parts[b["lid"]], parts=pl, tags=list(b["tags"]), weight=b["weight"],
+                                           spare=parts[b["spare"]] if b.get("spare") is not None else None,
+                                           **({"ribbon": b.get("ribbon", "")} if b["cls"] == "FancyBox" else {})))
     shelves = [mm.Shelf(code=s["code"], main=boxes[s["main"]], boxes=[boxes[i] for i in s["boxes"]]) for s in w["shelves"]]
     return parts, boxes, shelves
 
